@@ -606,6 +606,10 @@ int driver_main(int argc, char **argv, Engine &e) {
         }
         int reruns = 0;
         std::string small = minimise(e, plan, sig, 300, reruns);
+        {   // describe the minimised run, not the original one
+            RunResult m = run_plan_confirmed(e, small);
+            if (m.status == 1 && m.sig == sig && !m.detail.empty()) ag.sig_detail[sig] = m.detail;
+        }
         uint64_t h = 0xcbf29ce484222325ULL;
         for (char c : sig) { h ^= (uint8_t)c; h *= 0x100000001b3ULL; }
         std::string path = strf("%s/%s-%016llx.plan", replay_dir.c_str(), e.property.c_str(), (unsigned long long)h);
